@@ -322,6 +322,14 @@ func (x *Exec) valuesEqual(a, b Value) *Term {
 				return tTrue
 			}
 			if vb.cell == nil || va.cell == nil {
+				// comparison with nil: a symbolic input slice may or may not be nil
+				s := va
+				if va.cell == nil {
+					s = vb
+				}
+				if s.nilT != nil {
+					return s.nilT
+				}
 				return tFalse
 			}
 		}
